@@ -244,6 +244,16 @@ def run(ctx: Ctx) -> None:
             p = norm(run_[0].stmt.value.func.value) if direct else par[0].stmt.targets[0].id
             call = run_[0].stmt.value.func.value if direct else par[0].stmt.value
             args = [norm(a) for a in call.args]
+            # keyword arguments are placed by the parameter order of CxxParser.__init__
+            try:
+                init_params = [a.arg for a in ctx.repo.mod("parser").func("CxxParser.__init__").args.args[1:]]
+            except AnalysisError:
+                init_params = []
+            for kw_ in call.keywords:
+                if kw_.arg in init_params and init_params.index(kw_.arg) >= len(args):
+                    while len(args) < init_params.index(kw_.arg):
+                        args.append("<default>")
+                    args.append(norm(kw_.value))
             if len(args) < 4 or args[0] != "filename" or args[1] != "content" or args[2] != v or args[3] != "options":
                 ok = False
                 why.append(f"CxxParser is built with {args}")
